@@ -288,6 +288,49 @@ Lemma gen_num_outcomes_eq_sec : forall ty sched povm_len mo j,
   gen_num_outcomes ty sched povm_len mo j = num_outcomes_spec ty sched povm_len mo j.
 Proof. intros. destruct ty; cbv [gen_num_outcomes num_outcomes_spec gen_qst_num_outcomes gen_povmt_num_outcomes gen_qpt_num_outcomes gen_qmpt_num_outcomes];
   try reflexivity; lia. Qed.
+
+(* ---------------- StandardQTomography.calc_fisher_matrix: the rows of schedule j ---------------- *)
+Lemma map_nth_seq_firstn (ms : list nat) : forall j, j <= List.length ms -> map (fun i => nth i ms 0) (seq 0 j) = firstn j ms.
+Proof. induction ms as [|a t IH]; intros j Hj; cbn [List.length] in Hj.
+  - assert (j = 0) by lia. subst. reflexivity.
+  - destruct j as [|j]; [reflexivity|]. cbn [seq map firstn nth]. f_equal. rewrite <- seq_shift, map_map. apply IH. lia. Qed.
+Lemma fold_add_sizes_sum (l : list nat) : fold_right Nat.add 0 l = sizes_sum l.
+Proof. induction l as [|a l IH]; cbn [fold_right sizes_sum]; [reflexivity|]. now rewrite IH. Qed.
+Lemma gen_tomo_fisher_slice_sec : forall (ms : list nat) j, j < List.length ms ->
+  gen_tomo_fisher_start (fun i => nth i ms 0) j = sizes_sum (firstn j ms) /\
+  gen_tomo_fisher_stop (fun i => nth i ms 0) j = sizes_sum (firstn j ms) + nth j ms 0.
+Proof. intros ms j Hj. assert (E : gen_tomo_fisher_start (fun i => nth i ms 0) j = sizes_sum (firstn j ms)).
+  { unfold gen_tomo_fisher_start. rewrite map_nth_seq_firstn by lia. apply fold_add_sizes_sum. }
+  split; [exact E|]. unfold gen_tomo_fisher_stop. cbv zeta. rewrite E. reflexivity. Qed.
+(* with num_outcomes(i) = ms[i]: the same error code or entrywise the model's tomo_fisher (rows sum(ms[:j]) .. + ms[j]) *)
+Lemma gen_tomo_fisher_eq_sec : forall eps8 nv (A : mat) (b v : vec) (ms : list nat) j, j < List.length ms ->
+  mres_mat_eq F (gen_tomo_fisher F eps8 (mv nv A v) b A (fun i => nth i ms 0) j) (tomo_fisher F eps8 nv ms j A b v).
+Proof. intros eps8 nv A b v ms j Hj. destruct (gen_tomo_fisher_slice_sec ms j Hj) as [Es Et].
+  unfold gen_tomo_fisher. cbv zeta. rewrite Es, Et.
+  replace (sizes_sum (firstn j ms) + nth j ms 0 - sizes_sum (firstn j ms)) with (nth j ms 0) by lia.
+  unfold tomo_fisher, fisher_of_raw. cbv zeta. apply gen_mu_fisher_eq_sec. Qed.
+
+(* ---------------- StandardQTomography.calc_prob_dists: split at cumsum(sizes)[:-1], truncate and normalise every piece ---------------- *)
+Lemma split_pieces eps (raw : vec) : forall (sizes : list nat) start, sizes <> [] ->
+  map (fun ol : nat * nat => (snd ol, trunc_norm_row F eps (snd ol) (fun x => raw (fst ol + x))))
+      (np_split_from start (removelast (np_cumsum_from start sizes)) (start + sizes_sum sizes))
+  = pds_of_raw F eps raw start sizes.
+Proof. induction sizes as [|a t IH]; intros start Hne; [contradiction|]. destruct t as [|b t'].
+  - cbn [np_cumsum_from removelast np_split_from map sizes_sum pds_of_raw fst snd].
+    replace (start + (a + 0) - start) with a by lia. reflexivity.
+  - change (np_cumsum_from start (a :: b :: t')) with ((start + a) :: np_cumsum_from (start + a) (b :: t')).
+    change (removelast ((start + a) :: np_cumsum_from (start + a) (b :: t')))
+      with ((start + a) :: removelast (np_cumsum_from (start + a) (b :: t'))).
+    cbn [np_split_from map fst snd]. change (pds_of_raw F eps raw start (a :: b :: t'))
+      with ((a, trunc_norm_row F eps a (fun x => raw (start + x))) :: pds_of_raw F eps raw (start + a) (b :: t')).
+    replace (start + a - start) with a by lia. f_equal.
+    replace (start + sizes_sum (a :: b :: t')) with ((start + a) + sizes_sum (b :: t')) by (cbn [sizes_sum]; lia).
+    apply IH. discriminate. Qed.
+Lemma gen_prob_dists_eq_sec : forall eps nv (A : mat) (b v : vec) (ms : list nat), ms <> [] ->
+  gen_prob_dists F eps (affine F nv A b v) (fun j => nth j ms 0) (List.length ms) (sizes_sum ms) = tomo_pds F eps nv ms A b v
+  /\ gen_prob_dists_uses_var true = true /\ gen_prob_dists_uses_var false = false.
+Proof. intros eps nv A b v ms Hne. split; [|split; reflexivity]. unfold gen_prob_dists, tomo_pds, np_cumsum. cbv zeta.
+  rewrite (map_nth_seq ms 0). exact (split_pieces eps (affine F nv A b v) ms 0 Hne). Qed.
 End Equiv.
 
 (* ---- the theorems, closed (stated outside the section so that Print Assumptions reports the global context) ---- *)
@@ -401,3 +444,19 @@ Theorem gen_num_outcomes_eq : forall F : OF, forall ty sched povm_len mo j,
   gen_num_outcomes ty sched povm_len mo j = num_outcomes_spec ty sched povm_len mo j.
 Proof. intro F; exact (gen_num_outcomes_eq_sec F) || exact gen_num_outcomes_eq_sec. Qed.
 Print Assumptions gen_num_outcomes_eq.
+Theorem gen_tomo_fisher_slice : forall F : OF, forall (ms : list nat) j, j < List.length ms ->
+  gen_tomo_fisher_start (fun i => nth i ms 0) j = sizes_sum (firstn j ms) /\
+  gen_tomo_fisher_stop (fun i => nth i ms 0) j = sizes_sum (firstn j ms) + nth j ms 0.
+Proof. intro F; exact (gen_tomo_fisher_slice_sec F) || exact gen_tomo_fisher_slice_sec. Qed.
+Print Assumptions gen_tomo_fisher_slice.
+Theorem gen_tomo_fisher_eq : forall F : OF, forall eps8 nv (A : @mat F) (b v : @vec F) (ms : list nat) j, j < List.length ms ->
+  mres_mat_eq F (gen_tomo_fisher F eps8 (mv nv A v) b A (fun i => nth i ms 0) j) (tomo_fisher F eps8 nv ms j A b v).
+Proof. exact gen_tomo_fisher_eq_sec. Qed.
+Print Assumptions gen_tomo_fisher_eq.
+(* the regenerated calc_prob_dists IS the model's tomo_pds (= pds_of_raw: consecutive pieces of the outcome counts of the schedules),
+   and the variables are used exactly when the tomography carries the equality constraint *)
+Theorem gen_prob_dists_eq : forall F : OF, forall eps nv (A : @mat F) (b v : @vec F) (ms : list nat), ms <> [] ->
+  gen_prob_dists F eps (affine F nv A b v) (fun j => nth j ms 0) (List.length ms) (sizes_sum ms) = tomo_pds F eps nv ms A b v
+  /\ gen_prob_dists_uses_var true = true /\ gen_prob_dists_uses_var false = false.
+Proof. exact gen_prob_dists_eq_sec. Qed.
+Print Assumptions gen_prob_dists_eq.
